@@ -256,14 +256,17 @@ theorem dunder_isBool (c : Case) (x y : Opd) (h : Comparable c x y) (req : Rel) 
 
 /-- type mismatch under require_same_type: NotImplemented from all six methods (supplied, shared `__ne__`,
     derived, or `object`'s) -/
+theorem ne_id_of_ne_ty {x y : Opd} (ht : y.ty ≠ x.ty) (hid : x.id = y.id → x = y) : x.id ≠ y.id :=
+  fun e => ht (by rw [hid e])
+
 theorem dunder_mismatch (c : Case) (x y : Opd) (hr : c.requireSameType = true)
-    (hy : y.cmpObj = true) (ht : y.ty ≠ x.ty) (op : Op) : dunder c op x y = .NI := by
+    (hy : y.cmpObj = true) (ht : y.ty ≠ x.ty) (hid : x.id ≠ y.id) (op : Op) : dunder c op x y = .NI := by
   have hm : ∀ r, method c r x y = .NI := fun r => method_mismatch c r x y hr hy ht
   have heq : dunderEq c x y = .NI := by
-    simp only [dunderEq]; cases c.eq <;> simp [hm]
+    simp only [dunderEq]; cases c.eq <;> simp [hm, hid]
   cases op with
   | eq => exact heq
-  | ne => simp only [dunder, dunderNe, heq]; cases c.eq <;> simp
+  | ne => simp only [dunder, dunderNe, heq]; cases c.eq <;> simp [hid]
   | _ =>
     all_goals
       simp only [dunder, dunderOrd]
@@ -295,19 +298,19 @@ theorem oper_of_ne_NI (c : Case) (op : Op) (x y : Opd) (h : dunder c op x y ≠ 
     | rfl
 
 theorem oper_mismatch (c : Case) (x y : Opd) (hr : c.requireSameType = true)
-    (hx : x.cmpObj = true) (hy : y.cmpObj = true) (ht : y.ty ≠ x.ty) (op : Op) :
+    (hx : x.cmpObj = true) (hy : y.cmpObj = true) (ht : y.ty ≠ x.ty) (hid : x.id ≠ y.id) (op : Op) :
     oper c op x y = (match op with | .eq => .F | .ne => .T | _ => .typeError) := by
-  have h1 := dunder_mismatch c x y hr hy ht
-  have h2 := dunder_mismatch c y x hr hx (fun e => ht e.symm)
+  have h1 := dunder_mismatch c x y hr hy ht hid
+  have h2 := dunder_mismatch c y x hr hx (fun e => ht e.symm) (fun e => hid e.symm)
   cases op with
   | eq =>
     have a := h1 .eq; have b := h2 .eq
     simp only [dunder] at a b
-    simp [oper, opEq, a, b, hy]
+    simp [oper, opEq, a, b, hy, hid, R.ofBool]
   | ne =>
     have a := h1 .ne; have b := h2 .ne
     simp only [dunder] at a b
-    simp [oper, opNe, a, b, hy]
+    simp [oper, opNe, a, b, hy, hid, R.ofBool]
   | lt =>
     have a := h1 .lt; have b := h2 .gt
     simp only [dunder] at a b
@@ -350,10 +353,9 @@ theorem comparable_of_spec (c : Case) (hf : c.rhs ≠ .foreign) (h : comparable 
   cases hr : c.rhs <;> simp_all [fnsRaise, leftOpd, rightOpd]
 
 theorem fnRes_expected (c : Case) (r : Rel) : fnRes c r (leftOpd c) (rightOpd c) = expectedFn c r := by
-  have ht : ((rightOpd c).ty != (leftOpd c).ty) = (c.rhs != .same) := by
+  have ht : ((rightOpd c).ty != (leftOpd c).ty) = (c.rhs != .same && c.rhs != .identical) := by
     simp only [rightOpd, leftOpd]; cases c.rhs <;> rfl
-  by_cases hp : c.partialFns = true <;> by_cases hs : c.rhs = .same <;>
-    simp_all [fnRes, expectedFn, fnsRaise]
+  simp only [fnRes, expectedFn, fnsRaise, leftOpd_val, rightOpd_val, ht, Bool.and_assoc]
 
 theorem callEv_expected (c : Case) (op : Op) : callEv op (leftOpd c) (rightOpd c) = expectedCall c op := by
   simp [callEv, expectedCall]
@@ -394,10 +396,11 @@ theorem dunderLog_mismatch (c : Case) (x y : Opd) (hr : c.requireSameType = true
         · rfl
 
 theorem operLog_mismatch (c : Case) (x y : Opd) (hr : c.requireSameType = true)
-    (hx : x.cmpObj = true) (hy : y.cmpObj = true) (ht : y.ty ≠ x.ty) (op : Op) : operLog c op x y = [] := by
+    (hx : x.cmpObj = true) (hy : y.cmpObj = true) (ht : y.ty ≠ x.ty) (hid : x.id ≠ y.id) (op : Op) :
+    operLog c op x y = [] := by
   have h1 := dunderLog_mismatch c x y hr hy ht
   have h2 := dunderLog_mismatch c y x hr hx (fun e => ht e.symm)
-  have d1 := dunder_mismatch c x y hr hy ht
+  have d1 := dunder_mismatch c x y hr hy ht hid
   cases op with
   | eq =>
     have a := h1 .eq; have b := h2 .eq; have d := d1 .eq
@@ -485,10 +488,12 @@ theorem model_meets_spec (c : Case) : spec c (model c) = true := by
             cases hq : c.rhs <;> simp_all [rightOpd]
           have ht : (rightOpd c).ty ≠ (leftOpd c).ty := by
             cases hq : c.rhs <;> simp_all [rightOpd, leftOpd, comparable]
-          have hm := dunder_mismatch c (leftOpd c) (rightOpd c) hr hy ht
-          have ho := oper_mismatch c (leftOpd c) (rightOpd c) hr rfl hy ht
+          have hid : (leftOpd c).id ≠ (rightOpd c).id := by
+            cases hq : c.rhs <;> simp_all [rightOpd, leftOpd, comparable]
+          have hm := dunder_mismatch c (leftOpd c) (rightOpd c) hr hy ht hid
+          have ho := oper_mismatch c (leftOpd c) (rightOpd c) hr rfl hy ht hid
           have hl1 := dunderLog_mismatch c (leftOpd c) (rightOpd c) hr hy ht
-          have hl2 := operLog_mismatch c (leftOpd c) (rightOpd c) hr rfl hy ht
+          have hl2 := operLog_mismatch c (leftOpd c) (rightOpd c) hr rfl hy ht hid
           simp only [hcmp', Bool.false_eq_true, if_false, hat, hatL, hm, ho, hl1, hl2, beq_self_eq_true,
             List.all_cons, List.all_nil, Bool.and_true, Bool.and_eq_true, decide_eq_true_eq]
           simp
